@@ -135,7 +135,7 @@ class C14(Check):
         k = case["kind"]
         pairs = {}
         if k == "one":
-            self.eval_tx(bytes.fromhex(case["tx"]), case.get("desc", "replay"), stats, vs, pairs,
+            self.eval_tx(bytes.fromhex(case["tx"]), (case.get("desc0", "replay"),), stats, vs, pairs,
                          through=True)
             return vs
         n = len(self.menu)
@@ -197,7 +197,7 @@ class C14(Check):
 
     def viol(self, vs, clause, detail, raw, desc, observed, expected):
         vs.append(Violation("C14", "C14:%s:%s" % (clause, detail),
-                            {"kind": "one", "tx": raw.hex(), "desc": repr(desc)}, None,
+                            {"kind": "one", "tx": raw.hex(), "desc": repr(desc), "desc0": desc[0]}, None,
                             observed, expected, clause))
 
     def eval_tx(self, raw, desc, stats, vs, pairs, through):
